@@ -1607,12 +1607,12 @@ def run(ctx):
         t = time.time()
         f(*a)
         timing[name] = round(time.time() - t, 1)
-    timed("coordsys", leg_coordsys, ctx, P, rng, ctx.budget(300, 6000))
-    timed("vtc", leg_vtc, ctx, P, rng, ctx.budget(300, 12000))
+    timed("coordsys", leg_coordsys, ctx, P, rng, ctx.budget(300, 20000))
+    timed("vtc", leg_vtc, ctx, P, rng, ctx.budget(300, 30000))
     timed("order", leg_order, ctx, P, rng, ctx.budget(40, 400))
-    timed("fields", leg_fields, ctx, P, rng, ctx.budget(60, 600))
+    timed("fields", leg_fields, ctx, P, rng, ctx.budget(60, 2000))
     timed("subprocess legs (convert, commute, products; S and J)", leg_subprocess, ctx, P, rng,
-          ctx.budget(160, 3000), ctx.budget(60, 800), ctx.budget(6, 48))
+          ctx.budget(160, 12000), ctx.budget(60, 3000), ctx.budget(6, 96))
     timed("model driver", P.run)
     ctx.extra["timing_s"] = timing
 
